@@ -501,10 +501,10 @@ def classify(w):
 
 
 GENS = {
-    "result": Gen(case_result, 10000, 600000),
-    "set": Gen(case_set, 3000, 200000),
-    "multi": Gen(case_multi, 1500, 100000),
-    "combine": Gen(case_combine, 1200, 90000),
+    "result": Gen(case_result, 10000, 2000000),
+    "set": Gen(case_set, 3000, 700000),
+    "multi": Gen(case_multi, 1500, 400000),
+    "combine": Gen(case_combine, 1200, 300000),
 }
 MIN_EVALS = {"grouping-independent": 4000, "operand-not-mutated": 8000,
              "set-grouping-independent": 1500, "combine-per-combination": 1500,
